@@ -197,6 +197,25 @@ def flatten(pc):
     return out
 
 
+def cvc5_says_unsat(solver, tlimit_ms, stats=None):
+    """True iff cvc5 (independent solver, CLI) answers unsat on the solver's assertions within the limit"""
+    import subprocess, tempfile, os
+    try:
+        with tempfile.NamedTemporaryFile('w', suffix='.smt2', delete=False) as f:
+            f.write(solver.to_smt2())
+            path = f.name
+        try:
+            r = subprocess.run(['cvc5', '--tlimit=%d' % tlimit_ms, path], capture_output=True, text=True, timeout=tlimit_ms / 1000 + 20)
+        finally:
+            os.unlink(path)
+        if stats is not None:
+            stats['queries'] = stats.get('queries', 0) + 1
+        out = r.stdout.strip().split('\n')
+        return '(error' not in r.stdout and out[:1] == ['unsat']
+    except Exception:
+        return False
+
+
 def prove_int(pc, claim, timeout_nia=4000, timeout_lia=60000, stats=None, max_mult_vars=24):
     """returns ('proved', how) | ('cex', model) | ('unknown', reason)"""
     import os, sys
@@ -334,6 +353,8 @@ def _prove_int(pc, claim, timeout_nia, timeout_lia, stats, max_mult_vars):
             r2 = s2.check()
             if stats is not None:
                 stats['queries'] = stats.get('queries', 0) + 1
+            if r2 == z3.unknown and cvc5_says_unsat(s2, 60000, stats):
+                r2 = z3.unsat      # second opinion: z3 ran out of budget on the linear problem, cvc5 refutes it
             if r2 == z3.unsat:
                 if stats is not None:
                     stats['solver_s'] = stats.get('solver_s', 0) + time.time() - t0
